@@ -8,7 +8,9 @@
 // `SeqIter::{enumerate, map_while, last}` (A-iter, std adapters of the same names) and the axiom `axiom_into_items_vec`
 // (A-iter, `Vec::extend(Vec<T>)`).  Everything else is an open spec function or a proved lemma.  (The structural `Clone`
 // of Tour, A-derive, sits in the slice next to the copied text of env/solution_types.vs.)
-// No text is copied from other shims: everything needed is reached through the includes above.
+// Copied text: the counting lemmas of the CLOSURE section (fr_cyc_elems, lemma_fr_cyc_elems_*, lemma_fr_total_len_is_lookup) are
+// the text of env/sched_ctor_shim.vs with prefixed names (that file cannot be included here); everything else is reached through
+// the includes above.
 
 // =====================================================================================================
 // ASSUMPTIONS (A-iter), listed in the header of slices/fit_reassign.vs
@@ -157,12 +159,16 @@ impl Schedule {
     /// POSTCONDITION of fit_path_into_tour for the result (ntp, ntr, m) = (new_tour_provider, new_tour_receiver,
     /// moved_nodes).  Depots: a tour that keeps no activity vanishes with its depots; a moved end depot replaces the
     /// receiver's end depot, a dummy receiver takes no depots -- hence the clauses for the receiver speak about
-    /// activities ("without losing any of its own") and bound the depots from above.
+    /// activities ("without losing any of its own") and bound the depots from above.  Last clause: A-len holds again for the
+    /// receiver's new tour (closure of the tour invariants, see lemma_fit_tours_closed).
     pub open spec fn fit_outcome(&self, path: Seq<NodeIdx>, p: VehicleIdx, rcv: VehicleIdx, ntp: Option<Tour>, ntr: Tour, m: Seq<NodeIdx>) -> bool {
         // the moved nodes: some of the path's nodes, in the path's order, each once
         &&& is_subseq(m, path) && m.no_duplicates()
         &&& self.fit_provider_ok(p, ntp, m)
         &&& self.fit_receiver_ok(rcv, ntr, m)
+        // A-len is re-established: the receiver's new tour is within the length bound of a tour (C10: needed for the
+        // closure of part_ok; the provider's new tour is a sub-sequence of its old one)
+        &&& tour_len_ok(ntr.nodes@)
     }
     /// LOOP INVARIANT of fit_path_into_tour: k nodes of the path are decided, rem = the nodes of `remaining_path`
     pub open spec fn fit_inv(&self, path: Seq<NodeIdx>, p: VehicleIdx, rcv: VehicleIdx, ntp: Option<Tour>, ntr: Tour, m: Seq<NodeIdx>,
@@ -1218,4 +1224,322 @@ pub proof fn lemma_fit_done(s: &Schedule, path: Seq<NodeIdx>, p: VehicleIdx, rcv
         assert(path[a] == tp.nodes@[i + a] && path[b] == tp.nodes@[i + b]);
     }
     lemma_subseq_members(m, path);
+}
+
+// =====================================================================================================
+// CLOSURE (the induction step of C10 / C09): on Ok the result schedule `res` of fit_reassign satisfies the
+// schedule-invariant part of `fr_pre` again.  The lemmas below are lemmas ABOUT THE CONTRACT: their hypotheses are `fr_pre`
+// for the old schedule and the effect clauses of the contract read on `res` (fr_effect); nothing else is known about `res`.
+//   schedule invariants of fr_pre (closed here): ids_ok, listings_ok, usage_exact, part_ok (per vehicle), or_transitions_ok
+//     (incl. its magnitude clause: fit_reassign adds no vehicle), the costs relation;
+//   about the ARGUMENTS (not closed, they speak about the call, not about the schedule): provider != receiver, the segment
+//     is a segment of the provider's tour with an activity, A-len (|tr| + |tp| <= 2^17 + 2), and all of fr_pre_outcomes
+//     (tfu_pre for the moved nodes, u64 room for the new tours' costs, A-counter of the new tours).
+// =====================================================================================================
+impl Schedule {
+    /// the costs of v's tour if v is a real vehicle of this schedule, 0 otherwise (what cost_out_provider / cost_out_receiver
+    /// read off the schedule's own tours)
+    pub open spec fn fr_real_cost(&self, v: VehicleIdx) -> int {
+        if self.sp_is_vehicle(v) { self.tours@[v].costs as int } else { 0 }
+    }
+    /// the same for a vehicle other than the two participants
+    pub open spec fn fr_other_cost(&self, p: VehicleIdx, rcv: VehicleIdx, a: VehicleIdx) -> int {
+        if a == p || a == rcv { 0 } else { self.fr_real_cost(a) }
+    }
+    /// the effect clauses of the contract of fit_reassign, read on a result schedule `res` (the postconditions tagged
+    /// C13.fit_reassign.provider_loses_receiver_gains_only_moved_nodes, C10.fit_reassign.{listings_still_sorted_and_matching,
+    /// ids_stay_valid}, C09.fit_reassign.{costs_delta_exact, depot_usage_exact, maintenance_violation_exact})
+    pub open spec fn fr_effect(&self, segment: Segment, p: VehicleIdx, rcv: VehicleIdx, res: Schedule) -> bool {
+        &&& res.vehicle_counter == self.vehicle_counter && res.network == self.network
+        &&& self.fr_tours_after(segment, p, rcv, res.tours@, res.dummy_tours@)
+        &&& self.fr_maps_after(p, rcv, res.vehicles@, res.tours@, res.dummy_tours@)
+        &&& listings_ok(res.vehicles@, res.dummy_tours@, res.vehicle_ids_grouped_and_sorted@, res.dummy_ids_sorted@)
+        &&& ids_valid(res.vehicles@, res.tours@, res.dummy_tours@, res.dummy_ids_sorted@, res.vehicle_counter)
+        &&& self.or_costs_after(p, rcv, res.tours@, res.dummy_tours@, res.costs)
+        &&& usage_exact(res.depot_usage@, &self.network, res.vehicles@, res.tours@)
+        &&& self.or_transitions_after(p, rcv, res.next_period_transitions@, res.maintenance_violation, res.vehicles@, res.tours@)
+    }
+    /// CLOSURE of `part_ok` (C10 / C01 / C09 per vehicle): no vehicle or dummy appears, and EVERY vehicle or dummy v that
+    /// satisfied part_ok in the old schedule and still has a tour in the new one satisfies part_ok in the new one -- the
+    /// provider (if it still exists), the receiver (A-len of fr_pre bounds its new tour), every vehicle the modification does
+    /// not touch
+    pub open spec fn fr_parts_closed(&self, res: Schedule) -> bool {
+        forall|v: VehicleIdx| #[trigger] res.has_tour(v) ==> self.has_tour(v) && (self.part_ok(v) ==> res.part_ok(v))
+    }
+    /// CLOSURE of the costs relation of fr_pre ("the schedule's costs cover the tours of the (real) participants"):
+    /// (1) verbatim for the same two participants in the new schedule; (2) for ANY two distinct vehicles a, b of the next
+    /// modification, under the weakest hypothesis on the old schedule: its costs cover the old tours of p, rcv, a and b
+    /// together (C09: the costs are the sum of ALL tours' costs plus non-negative terms)
+    pub open spec fn fr_costs_closed(&self, p: VehicleIdx, rcv: VehicleIdx, res: Schedule) -> bool {
+        &&& res.cost_out_provider(res.tours@, Some(p)) + res.cost_out_receiver(res.tours@, rcv) <= res.costs
+        &&& forall|a: VehicleIdx, b: VehicleIdx| #![trigger res.fr_real_cost(a), res.fr_real_cost(b)]
+                a != b && self.fr_real_cost(p) + self.fr_real_cost(rcv) + self.fr_other_cost(p, rcv, a) + self.fr_other_cost(p, rcv, b) <= self.costs
+                ==> res.cost_out_provider(res.tours@, Some(a)) + res.cost_out_receiver(res.tours@, b) <= res.costs
+                    && res.fr_real_cost(a) + res.fr_real_cost(b) <= res.costs
+    }
+}
+
+// ---- counting (text of env/sched_ctor_shim.vs, which cannot be included here; names prefixed): a consistent transition
+// holds as many vehicles as its lookup has keys ---------------------------------------------------------------------
+/// the vehicles in the first k cycles
+pub open spec fn fr_cyc_elems(t: TView, k: int) -> Set<VehicleIdx>
+    decreases k,
+{
+    if k <= 0 { Set::empty() } else { fr_cyc_elems(t, k - 1).union(t.cyc(k - 1).to_set()) }
+}
+pub proof fn lemma_fr_cyc_elems_member(t: TView, k: int, v: VehicleIdx)
+    requires 0 <= k <= t.n(),
+    ensures fr_cyc_elems(t, k).contains(v) <==> exists|i: int| 0 <= i < k && (#[trigger] t.cyc(i)).contains(v),
+    decreases k,
+{
+    if k > 0 {
+        lemma_fr_cyc_elems_member(t, k - 1, v);
+        if fr_cyc_elems(t, k).contains(v) {
+            if t.cyc(k - 1).contains(v) { assert(0 <= k - 1 < k && t.cyc(k - 1).contains(v)); }
+            else {
+                let i = choose|i: int| 0 <= i < k - 1 && (#[trigger] t.cyc(i)).contains(v);
+                assert(0 <= i < k && t.cyc(i).contains(v));
+            }
+        }
+        if exists|i: int| 0 <= i < k && (#[trigger] t.cyc(i)).contains(v) {
+            let i = choose|i: int| 0 <= i < k && (#[trigger] t.cyc(i)).contains(v);
+            if i < k - 1 { assert(0 <= i < k - 1 && t.cyc(i).contains(v)); }
+        }
+    }
+}
+pub proof fn lemma_fr_cyc_elems_len(t: TView, k: int)
+    requires t.wf_cycles(), 0 <= k <= t.n(),
+    ensures fr_cyc_elems(t, k).len() == sum_seq(lens_of(t.cycles).take(k)),
+    decreases k,
+{
+    let l = lens_of(t.cycles);
+    if k > 0 {
+        lemma_fr_cyc_elems_len(t, k - 1);
+        let a = fr_cyc_elems(t, k - 1);
+        let b = t.cyc(k - 1).to_set();
+        assert(a.disjoint(b)) by {
+            assert forall|v: VehicleIdx| !(a.contains(v) && b.contains(v)) by {
+                if a.contains(v) && b.contains(v) {
+                    lemma_fr_cyc_elems_member(t, k - 1, v);
+                    let i = choose|i: int| 0 <= i < k - 1 && (#[trigger] t.cyc(i)).contains(v);
+                    let x = choose|x: int| 0 <= x < t.cyc(i).len() && t.cyc(i)[x] == v;
+                    let ck = t.cyc(k - 1);
+                    let y = choose|y: int| 0 <= y < ck.len() && ck[y] == v;
+                    assert(t.cyc(i)[x] != t.cyc(k - 1)[y]);
+                }
+            }
+        }
+        vstd::set_lib::lemma_set_disjoint_lens(a, b);
+        t.cyc(k - 1).unique_seq_to_set();
+        assert(l.take(k).drop_last() =~= l.take(k - 1));
+        assert(l.take(k).last() == t.cyc(k - 1).len());
+    } else {
+        assert(l.take(0) =~= Seq::<int>::empty());
+    }
+}
+/// C15: a consistent transition holds as many vehicles as its lookup has keys
+pub proof fn lemma_fr_total_len_is_lookup(t: TView)
+    requires t.wf_cycles(), t.wf_lookup(),
+    ensures t.total_len() == t.lookup.dom().len(),
+{
+    let l = lens_of(t.cycles);
+    lemma_fr_cyc_elems_len(t, t.n());
+    assert(l.take(t.n()) =~= l);
+    assert(fr_cyc_elems(t, t.n()) =~= t.lookup.dom()) by {
+        assert forall|v: VehicleIdx| fr_cyc_elems(t, t.n()).contains(v) <==> t.lookup.dom().contains(v) by {
+            lemma_fr_cyc_elems_member(t, t.n(), v);
+            if fr_cyc_elems(t, t.n()).contains(v) {
+                let i = choose|i: int| 0 <= i < t.n() && (#[trigger] t.cyc(i)).contains(v);
+                let x = choose|x: int| 0 <= x < t.cyc(i).len() && t.cyc(i)[x] == v;
+                assert(t.lookup.contains_key(t.cyc(i)[x]));
+            }
+            if t.lookup.contains_key(v) {
+                assert(0 <= t.cycle_of(v) < t.n() && t.cyc(t.cycle_of(v)).contains(v));
+            }
+        }
+    }
+}
+/// a consistent transition whose vehicles are among the vehicles of another one is not bigger
+pub proof fn lemma_fr_total_len_le(t1: TView, t0: TView)
+    requires
+        t0.wf_cycles(), t0.wf_lookup(), t1.wf_cycles(), t1.wf_lookup(),
+        forall|v: VehicleIdx| #[trigger] t1.has_vehicle(v) ==> t0.has_vehicle(v),
+    ensures t1.total_len() <= t0.total_len(),
+{
+    lemma_fr_total_len_is_lookup(t0);
+    lemma_fr_total_len_is_lookup(t1);
+    assert(t1.lookup.dom().subset_of(t0.lookup.dom())) by {
+        assert forall|v: VehicleIdx| t1.lookup.dom().contains(v) implies t0.lookup.dom().contains(v) by {
+            assert(t1.has_vehicle(v));
+            assert(t0.has_vehicle(v));
+        }
+    }
+    vstd::set_lib::lemma_len_subset(t1.lookup.dom(), t0.lookup.dom());
+}
+/// the number of vehicles in all rotation cycles does not grow if it does not grow for any listed type
+pub proof fn lemma_fr_len_sum_mono(trs0: Map<VehicleTypeIdx, Transition>, trs1: Map<VehicleTypeIdx, Transition>, vts: Seq<VehicleTypeIdx>)
+    requires forall|i: int| 0 <= i < vts.len() ==> (#[trigger] trs1[vts[i]]).total_len() <= trs0[vts[i]].total_len(),
+    ensures len_sum(trs1, vts) <= len_sum(trs0, vts),
+    decreases vts.len(),
+{
+    if vts.len() > 0 {
+        let d = vts.drop_last();
+        assert forall|i: int| 0 <= i < d.len() implies (#[trigger] trs1[d[i]]).total_len() <= trs0[d[i]].total_len() by {
+            assert(d[i] == vts[i]);
+        }
+        lemma_fr_len_sum_mono(trs0, trs1, d);
+        assert(vts.last() == vts[vts.len() - 1]);
+        assert(trs1[vts[vts.len() - 1]].total_len() <= trs0[vts[vts.len() - 1]].total_len());
+    }
+}
+
+/// CLOSURE for fit_path_into_tour: the tour invariants of fit_pre (well-formed over the schedule's network, exact caches,
+/// A-len) hold again for the two new tours
+pub proof fn lemma_fit_tours_closed(s: &Schedule, path: Seq<NodeIdx>, p: VehicleIdx, rcv: VehicleIdx, ntp: Option<Tour>, ntr: Tour, m: Seq<NodeIdx>)
+    requires s.fit_pre(path, p, rcv), s.fit_outcome(path, p, rcv, ntp, ntr, m),
+    ensures
+        ntr.wf() && ntr.caches_ok() && *ntr.network == *s.network && tour_len_ok(ntr.nodes@) && ntr.is_dummy == s.sp_tour_of(rcv).is_dummy,
+        ntp is Some ==> ntp.unwrap().wf() && ntp.unwrap().caches_ok() && *ntp.unwrap().network == *s.network
+            && tour_len_ok(ntp.unwrap().nodes@) && ntp.unwrap().is_dummy == s.sp_tour_of(p).is_dummy,
+{
+    if ntp is Some {
+        let tp = s.sp_tour_of(p);
+        lemma_tour_nodup(&tp);
+        lemma_subseq_members(ntp.unwrap().nodes@, tp.nodes@);
+    }
+}
+
+// ---- the closure lemmas, conjunct by conjunct ---------------------------------------------------------------------
+/// CLOSURE of part_ok: see fr_parts_closed
+pub proof fn lemma_fr_parts_closed(s: &Schedule, segment: Segment, p: VehicleIdx, rcv: VehicleIdx, res: Schedule)
+    requires s.fr_pre(segment, p, rcv), s.fr_effect(segment, p, rcv, res),
+    ensures s.fr_parts_closed(res),
+{
+    lemma_fr_setup(s, segment, p, rcv);
+    lemma_fr_cut(s, segment, p, rcv);
+    let tp = s.sp_tour_of(p);
+    let tr = s.sp_tour_of(rcv);
+    let stp = tour_opt_in(res.tours@, res.dummy_tours@, p);
+    let ntr = tour_in(res.tours@, res.dummy_tours@, rcv);
+    let m = choose|m: Seq<NodeIdx>| #[trigger] s.fr_outcome(segment, p, rcv, stp, ntr, m);
+    let path = s.fr_path(segment, p);
+    assert(s.fit_outcome(path, p, rcv, stp, ntr, m));
+    assert(path.len() <= tp.len());
+    assert forall|v: VehicleIdx| #[trigger] res.has_tour(v) implies s.has_tour(v) && (s.part_ok(v) ==> res.part_ok(v)) by {
+        assert(s.vehicles@.contains_key(v) <==> s.tours@.contains_key(v));
+        if v == rcv {
+            assert(res.sp_tour_of(rcv) == ntr);
+            assert(res.vehicles@.contains_key(rcv) == s.vehicles@.contains_key(rcv));
+            assert(res.dummy_tours@.contains_key(rcv) == s.dummy_tours@.contains_key(rcv));
+            if res.sp_is_vehicle(rcv) { assert(res.type_of(rcv) == s.type_of(rcv)); }
+            assert(tour_len_ok(ntr.nodes@));
+            assert(res.part_ok(rcv));
+        } else if v == p {
+            assert(stp is Some);
+            let t = stp.unwrap();
+            assert(res.sp_tour_of(p) == t);
+            assert(res.vehicles@.contains_key(p) == s.vehicles@.contains_key(p));
+            assert(res.dummy_tours@.contains_key(p) == s.dummy_tours@.contains_key(p));
+            if res.sp_is_vehicle(p) { assert(res.type_of(p) == s.type_of(p)); }
+            // "the provider loses …": its new tour is not longer than its old one
+            lemma_tour_nodup(&tp);
+            lemma_subseq_members(t.nodes@, tp.nodes@);
+            assert(tour_len_ok(t.nodes@));
+            assert(res.part_ok(p));
+        } else {
+            lemma_frame(s, s.vehicles@, s.tours@, s.dummy_tours@, Some(p), stp, rcv, ntr, v);
+            assert(res.sp_tour_of(v) == s.sp_tour_of(v));
+            if res.sp_is_vehicle(v) { assert(res.type_of(v) == s.type_of(v)); }
+        }
+    }
+}
+/// CLOSURE of or_transitions_ok (C15 / C10 / C09 for the rotation cycles), including its magnitude clause: fit_reassign adds
+/// no vehicle, so every type's cycles hold at most as many vehicles as before
+pub proof fn lemma_fr_transitions_closed(s: &Schedule, segment: Segment, p: VehicleIdx, rcv: VehicleIdx, res: Schedule)
+    requires s.fr_pre(segment, p, rcv), s.fr_effect(segment, p, rcv, res),
+    ensures res.or_transitions_ok(),
+{
+    let trs0 = s.next_period_transitions@;
+    let trs1 = res.next_period_transitions@;
+    let vts = sched_types(s);
+    let stp = tour_opt_in(res.tours@, res.dummy_tours@, p);
+    assert(sched_types(&res) == vts);
+    assert(res.vehicles@ == s.vehicles_after(s.vehicles@, Some(p), stp));
+    assert forall|vt: VehicleTypeIdx| #[trigger] trs1.contains_key(vt) <==> vts.contains(vt) by {
+        assert(trs0.contains_key(vt) <==> vts.contains(vt));
+    }
+    assert forall|vt: VehicleTypeIdx, v: VehicleIdx| #![trigger trs1[vt].has_vehicle(v)] trs1.contains_key(vt)
+        implies (trs1[vt].has_vehicle(v) <==> res.vehicles@.contains_key(v) && res.type_of(v) == vt) by {
+        assert(trs1[vt].has_vehicle(v) <==> (res.vehicles@.contains_key(v) && vtype(res.vehicles@[v]) == vt));
+    }
+    assert forall|i: int| 0 <= i < vts.len() implies (#[trigger] trs1[vts[i]]).total_len() <= trs0[vts[i]].total_len() by {
+        let vt = vts[i];
+        assert(vts.contains(vt));
+        assert(trs0.contains_key(vt) && trs1.contains_key(vt));
+        let t0 = trs0[vt];
+        let t1 = trs1[vt];
+        assert(t0.wf(&s.network, s.tours@));
+        assert(t1.wf(&s.network, res.tours@));
+        assert forall|v: VehicleIdx| #[trigger] t1@.has_vehicle(v) implies t0@.has_vehicle(v) by {
+            assert(t1.has_vehicle(v));
+            assert(res.vehicles@.contains_key(v) && vtype(res.vehicles@[v]) == vt);
+            assert(s.vehicles@.contains_key(v) && s.type_of(v) == vt);
+            assert(t0.has_vehicle(v));
+        }
+        lemma_fr_total_len_le(t1@, t0@);
+    }
+    lemma_fr_len_sum_mono(trs0, trs1, vts);
+}
+/// CLOSURE of the costs relation: see fr_costs_closed
+pub proof fn lemma_fr_costs_closed(s: &Schedule, segment: Segment, p: VehicleIdx, rcv: VehicleIdx, res: Schedule)
+    requires s.fr_pre(segment, p, rcv), s.fr_effect(segment, p, rcv, res),
+    ensures s.fr_costs_closed(p, rcv, res),
+{
+    lemma_fr_setup(s, segment, p, rcv);
+    let stp = tour_opt_in(res.tours@, res.dummy_tours@, p);
+    let ntr = tour_in(res.tours@, res.dummy_tours@, rcv);
+    let in_p = s.cost_in_provider(Some(p), stp);
+    let in_r = s.cost_in_receiver(rcv, ntr);
+    assert(res.vehicles@.contains_key(rcv) == s.vehicles@.contains_key(rcv));
+    if res.sp_is_vehicle(rcv) { assert(res.tours@[rcv] == ntr); }
+    if res.sp_is_vehicle(p) {
+        assert(s.sp_is_vehicle(p) && stp is Some);
+        assert(res.tours@[p] == stp.unwrap());
+    }
+    assert(res.fr_real_cost(p) == in_p);
+    assert(res.fr_real_cost(rcv) == in_r);
+    assert(res.costs == s.costs - s.fr_real_cost(p) - s.fr_real_cost(rcv) + in_p + in_r);
+    assert forall|a: VehicleIdx, b: VehicleIdx| #![trigger res.fr_real_cost(a), res.fr_real_cost(b)]
+        a != b && s.fr_real_cost(p) + s.fr_real_cost(rcv) + s.fr_other_cost(p, rcv, a) + s.fr_other_cost(p, rcv, b) <= s.costs
+        implies res.cost_out_provider(res.tours@, Some(a)) + res.cost_out_receiver(res.tours@, b) <= res.costs
+            && res.fr_real_cost(a) + res.fr_real_cost(b) <= res.costs by {
+        if a != p && a != rcv {
+            lemma_frame(s, s.vehicles@, s.tours@, s.dummy_tours@, Some(p), stp, rcv, ntr, a);
+            assert(res.fr_real_cost(a) == s.fr_real_cost(a));
+        }
+        if b != p && b != rcv {
+            lemma_frame(s, s.vehicles@, s.tours@, s.dummy_tours@, Some(p), stp, rcv, ntr, b);
+            assert(res.fr_real_cost(b) == s.fr_real_cost(b));
+        }
+    }
+}
+/// CLOSURE, all conjuncts.  The effect clauses are the ANTECEDENT (not `requires`): if the code stops providing one of them, the
+/// failing obligation is the tagged postcondition of fit_reassign, not the call of the lemma.
+pub proof fn lemma_fr_closed(s: &Schedule, segment: Segment, p: VehicleIdx, rcv: VehicleIdx, res: Schedule)
+    requires s.fr_pre(segment, p, rcv),
+    ensures
+        s.fr_effect(segment, p, rcv, res) ==> {
+            &&& res.ids_ok()
+            &&& listings_ok(res.vehicles@, res.dummy_tours@, res.vehicle_ids_grouped_and_sorted@, res.dummy_ids_sorted@)
+            &&& usage_exact(res.depot_usage@, &res.network, res.vehicles@, res.tours@)
+            &&& s.fr_parts_closed(res)
+            &&& res.or_transitions_ok()
+            &&& s.fr_costs_closed(p, rcv, res)
+        },
+{
+    if s.fr_effect(segment, p, rcv, res) {
+        lemma_fr_parts_closed(s, segment, p, rcv, res);
+        lemma_fr_transitions_closed(s, segment, p, rcv, res);
+        lemma_fr_costs_closed(s, segment, p, rcv, res);
+    }
 }
